@@ -14,6 +14,21 @@ set_option linter.unusedVariables false
 @[simp] theorem markBroken_unotifs (s : St) : (markBroken s).unotifs = s.unotifs := congrArg NView.us (nview_markBroken s)
 @[simp] theorem markBroken_cnotifs (s : St) : (markBroken s).cnotifs = s.cnotifs := congrArg NView.cs (nview_markBroken s)
 
+@[simp] theorem modCore_unotifs (s : St) (r : Nat) (f : ReqCore → ReqCore) : (modCore s r f).unotifs = s.unotifs := rfl
+@[simp] theorem modCore_cnotifs (s : St) (r : Nat) (f : ReqCore → ReqCore) : (modCore s r f).cnotifs = s.cnotifs := rfl
+@[simp] theorem modMeta_unotifs (s : St) (r : Nat) (f : ReqMeta → ReqMeta) : (modMeta s r f).unotifs = s.unotifs := rfl
+@[simp] theorem modMeta_cnotifs (s : St) (r : Nat) (f : ReqMeta → ReqMeta) : (modMeta s r f).cnotifs = s.cnotifs := rfl
+@[simp] theorem cancelReq_unotifs (s : St) (r : Nat) (c : Cause) : (cancelReq s r c).unotifs = s.unotifs := rfl
+@[simp] theorem cancelReq_cnotifs (s : St) (r : Nat) (c : Cause) : (cancelReq s r c).cnotifs = s.cnotifs := rfl
+@[simp] theorem toP2_unotifs (s : St) (r : Nat) : (toP2 s r).unotifs = s.unotifs := rfl
+@[simp] theorem toP2_cnotifs (s : St) (r : Nat) : (toP2 s r).cnotifs = s.cnotifs := rfl
+@[simp] theorem toP2_byID (s : St) (r : Nat) : (toP2 s r).byID = s.byID := rfl
+@[simp] theorem modCore_byID' (s : St) (r : Nat) (f : ReqCore → ReqCore) : (modCore s r f).byID = s.byID := rfl
+@[simp] theorem modCore_metas' (s : St) (r : Nat) (f : ReqCore → ReqCore) : (modCore s r f).metas = s.metas := rfl
+@[simp] theorem modCore_cores' (s : St) (r : Nat) (f : ReqCore → ReqCore) : (modCore s r f).cores = s.cores.modify r f := rfl
+@[simp] theorem toP2_cores' (s : St) (r : Nat) :
+    (toP2 s r).cores = s.cores.modify r (fun q => { q with pc := .p2 }) := rfl
+
 theorem markBroken_writeErr (s : St) : (markBroken s).writeErr = true := by
   have := congrArg FV.writeErr (fview_markBroken s)
   simpa [fview] using this
@@ -237,5 +252,119 @@ theorem monreqs_p2 {m : Mon} {s s0 : St} {p : Obs} {r : Nat} (mr : MonReqs m s) 
         all_goals first
           | (intro k e _ hk; simp at hk; done)
           | (simp only [afterP2]; split <;> simp [modCore, modMeta, evOf, Mon.book, modR, mr.idx]; done)
+
+/-! ### inside the response write (W1, the transport Write, W2) -/
+
+/-- `req.cancel(nil)` at the end of processResult: fills an empty cause with `finished`. -/
+def cancelFin (q : ReqMeta) : ReqMeta := if q.cancelled.isSome then q else { q with cancelled := some .finished }
+
+theorem cancelReq_metas (s : St) (r : Nat) : (cancelReq s r .finished).metas = s.metas.modify r cancelFin := rfl
+
+theorem cancelFin_facts (mt : ReqMeta) :
+    (cancelFin mt).started = mt.started ∧ (cancelFin mt).asyncCalled = mt.asyncCalled ∧ (cancelFin mt).seen = mt.seen ∧
+    (cancelFin mt).cancelled.isSome = true ∧
+    (∀ c, c ≠ Cause.finished → (cancelFin mt).cancelled = some c → mt.cancelled = some c) := by
+  unfold cancelFin
+  cases hc : mt.cancelled with
+  | none => simp; intro c hc' h; exact absurd h.symm hc'
+  | some c => simp [hc]
+
+/-- A move inside the response write: pc from {w1, wr, w2} to {wr, w2} (meta unchanged) or to p2
+(context cancelled with cause `finished`); only the two write counters change. -/
+theorem ReqRel.inWrite {q : MReq} {k k' : ReqCore} {mt mt' : ReqMeta} (rel : ReqRel q k mt) (w o : Nat)
+    (hold : k.pc = .w1 ∨ k.pc = .wr ∨ ∃ e, k.pc = .w2 e)
+    (hnew : ((k'.pc = .wr ∨ ∃ e, k'.pc = .w2 e) ∧ mt' = mt) ∨ (k'.pc = .p2 ∧ mt' = cancelFin mt))
+    (hk : k'.id = k.id ∧ k'.isCall = k.isCall)
+    (hw1 : w = k'.wrote) (hok : o = k'.responses) :
+    ReqRel { q with w1count := w, okWrites := o } k' mt' := by
+  obtain ⟨hid, hcall⟩ := hk
+  have hA : k.pc.afterP1 = true := by rcases hold with h | h | ⟨e, h⟩ <;> simp [h, ReqPc.afterP1]
+  have hA' : k'.pc.afterP1 = true ∧ k'.pc.inPR = true ∧ k'.pc ≠ .a1 ∧ k'.pc ≠ .running ∧ k'.pc ≠ .fin ∧
+      k'.pc ≠ .a2 ∧ k'.pc ≠ .queued := by
+    rcases hnew with ⟨h | ⟨e, h⟩, _⟩ | ⟨h, _⟩ <;> simp [h, ReqPc.afterP1, ReqPc.inPR]
+  have hnf : k.pc ≠ .fin ∧ k.pc ≠ .p2 := by rcases hold with h | h | ⟨e, h⟩ <;> simp [h]
+  obtain ⟨f1, f2, f3, f4, f5⟩ := cancelFin_facts mt
+  have hm : mt'.started = mt.started ∧ mt'.asyncCalled = mt.asyncCalled ∧ mt'.seen = mt.seen := by
+    rcases hnew with ⟨_, h⟩ | ⟨_, h⟩ <;> subst h <;> simp [f1, f2, f3]
+  constructor
+  · simp [hid]; exact rel.id
+  · exact rel.idk
+  · exact rel.cancelKind
+  · simp [hcall]; exact rel.kind
+  · intro _; exact hA'.2.2.1
+  · exact hw1
+  · exact hok
+  · have := rel.p1; simp_all
+  · simp [hm.1]; exact rel.st
+  · intro h; exact absurd h hA'.2.2.2.1
+  · simp [hm.2.1]; exact rel.asyncd
+  · have := rel.p2done; simp_all
+  · intro _; exact Or.inl hA'.2.1
+  · intro h
+    rcases hnew with ⟨_, e⟩ | ⟨_, e⟩ <;> subst e
+    · exact rel.peer h
+    · exact f4
+  · intro h
+    rcases hnew with ⟨_, e⟩ | ⟨_, e⟩ <;> subst e
+    · exact rel.cpeer h
+    · exact rel.cpeer (f5 _ (by simp) h)
+  · intro h; rcases h with h | h | h
+    · exact absurd h hA'.2.2.2.2.2.1
+    · exact absurd h hA'.2.2.2.2.2.2
+    · exact absurd h hA'.2.2.2.1
+  · intro h
+    rcases hnew with ⟨_, e⟩ | ⟨h2, e⟩
+    · subst e; rcases rel.cfin h with h' | h'
+      · exact absurd h' hnf.2
+      · exact absurd h' hnf.1
+    · exact Or.inl h2
+
+theorem cancelFin_rw (mt : ReqMeta) :
+    ((cancelFin mt).cancelled = some .read → mt.cancelled = some .read) ∧
+    ((cancelFin mt).cancelled = some .write → mt.cancelled = some .write) :=
+  ⟨(cancelFin_facts mt).2.2.2.2 _ (by simp), (cancelFin_facts mt).2.2.2.2 _ (by simp)⟩
+
+/-! ### W1 of a response -/
+
+theorem monreqs_w1resp {m : Mon} {s s0 : St} {p : Obs} {r : Nat} (mr : MonReqs m s) (i : Inv4 s)
+    (hp : p.shuttingDown = s.shuttingDown) (h : step0 s (.w1 (.resp r)) = some s0) :
+    MonReqs (m.book p (evOf (.w1 (.resp r)))) s0 := by
+  simp only [step0] at h
+  split at h
+  · cases h
+  · rename_i q hq
+    split at h
+    · cases h
+    · rename_i hpc
+      have hpc : q.pc = .w1 := by simpa using hpc
+      split at h
+      · cases h
+        refine mr.upd r ((fun k => { k with pc := .wr }) ∘ (fun k => { k with wrote := k.wrote + 1 })) id
+          (fun q => { q with w1count := q.w1count + 1 }) ?_ ?_ rfl ?_ id id ?_ ?_ ?_ ?_ (fun _ _ => ⟨id, id⟩) ?_ ?_
+        · simp [modCore, List.modify_modify_eq]
+        · simp [modCore]
+        · simp [modCore, evOf, Mon.book, modR, mr.idx]
+        · simp [modCore]
+        · simp [modCore]
+        · simp [modCore]
+        · simp [modCore]
+        · intro k e _ hk; simp at hk
+        · intro q' k mt hq' hk hmt rel
+          rw [hq] at hk; cases hk
+          exact rel.inWrite _ _ (Or.inl hpc) (Or.inl ⟨Or.inl rfl, rfl⟩) ⟨rfl, rfl⟩ (by simp [rel.w1]) rel.ok
+      · cases h
+        refine mr.upd r ((fun k => { k with pc := .p2 }) ∘ (fun k => { k with wrote := k.wrote + 1 })) cancelFin
+          (fun q => { q with w1count := q.w1count + 1 }) ?_ ?_ rfl ?_ id id ?_ ?_ ?_ ?_ (fun mt _ => cancelFin_rw mt) ?_ ?_
+        · simp [List.modify_modify_eq]
+        · simp [toP2, cancelReq_metas]
+        · simp [evOf, Mon.book, modR, mr.idx]
+        · simp
+        · simp
+        · simp
+        · simp
+        · intro k e _ hk; simp at hk
+        · intro q' k mt hq' hk hmt rel
+          rw [hq] at hk; cases hk
+          exact rel.inWrite _ _ (Or.inl hpc) (Or.inr ⟨rfl, rfl⟩) ⟨rfl, rfl⟩ (by simp [rel.w1]) rel.ok
 
 end Conn
